@@ -12,7 +12,7 @@ SCHED_CLAUSE = {
     "canon": "C05", "order-dependent": "C05",
     "init-times": "C06", "init-publications": "C06", "connect-error": "C06",
     "delay-shift": "C13", "delay-shift-notify": "C13",
-    "provider-time": "C20", "weighted-sum": "C20", "merger-raised": "C20",
+    "provider-time": "C20", "weighted-sum": "C20", "static-input": "C20", "merger-raised": "C20",
     "retained": "C09", "no-files-after-finalize": "C10", "files-in-location": "C10",
     "unknown-component": "C03",
 }
